@@ -29,7 +29,7 @@ const (
 	M1Version = "1.0.0"
 )
 
-// M1 is the synthetic model: containers three deep; sibling names that are
+// M1 is the synthetic model: containers up to seven deep (with sibling leaves at depth 4 and 7); sibling names that are
 // textual prefixes of each other and sort on both sides of '/' and '[';
 // a single-key list, a two-key list, a list nested in a list; key leaves of
 // string, uint8 and boolean type; a module-prefixed list; every value type.
@@ -44,6 +44,10 @@ var M1 = []LeafDef{
 	{Schema: "/a/c/e", Type: configapi.ValueType_UINT, Width: 32},
 	{Schema: "/a/c/f/g", Type: configapi.ValueType_STRING},
 	{Schema: "/a/cx/d", Type: configapi.ValueType_STRING, Tags: "sibling"},
+	// siblings four and seven elements deep (a change that writes both shares a parent of three resp. six elements)
+	{Schema: "/a/c/f/h", Type: configapi.ValueType_UINT, Width: 16},
+	{Schema: "/a/c/f/i/j/k/p", Type: configapi.ValueType_STRING},
+	{Schema: "/a/c/f/i/j/k/q", Type: configapi.ValueType_STRING},
 	// sibling-prefix containers: a, a-b, ab
 	{Schema: "/a-b/z", Type: configapi.ValueType_STRING, Tags: "sibling"},
 	{Schema: "/ab/z", Type: configapi.ValueType_STRING, Tags: "sibling"},
@@ -63,6 +67,8 @@ var M1 = []LeafDef{
 	{Schema: "/l1[id=*]/sub/x", Type: configapi.ValueType_STRING},
 	{Schema: "/l1[id=*]/l3[n=*]/n", Type: configapi.ValueType_STRING, IsKey: true},
 	{Schema: "/l1[id=*]/l3[n=*]/v", Type: configapi.ValueType_STRING},
+	{Schema: "/l1[id=*]/l3[n=*]/deep/p", Type: configapi.ValueType_STRING},
+	{Schema: "/l1[id=*]/l3[n=*]/deep/q", Type: configapi.ValueType_UINT, Width: 8},
 	// list whose name has l1 as a textual prefix
 	{Schema: "/l1x[id=*]/id", Type: configapi.ValueType_STRING, IsKey: true, Tags: "sibling"},
 	{Schema: "/l1x[id=*]/v", Type: configapi.ValueType_STRING, Tags: "sibling"},
